@@ -14,6 +14,9 @@ use crate::util::{compress, decompress};
 use crate::util::{compress_async, decompress_async};
 use crate::Compression;
 
+/// Upper bound for the number of entries that are pre-allocated before any entry was read.
+const MAX_PREALLOC_ENTRIES: usize = 4096;
+
 /// A structure representing a directory entry.
 ///
 /// A entry includes information on where to find either a leaf directory or one/multiple tiles.
@@ -113,14 +116,26 @@ impl Directory {
 
         let num_entries = read_varint([usize], [reader])?;
 
-        let mut entries = Vec::<Entry>::with_capacity(num_entries);
+        // `num_entries` comes from untrusted input: never pre-allocate more than a
+        // bounded amount, the vector grows while entries are actually read
+        let mut entries = Vec::<Entry>::with_capacity(if num_entries < MAX_PREALLOC_ENTRIES {
+            num_entries
+        } else {
+            MAX_PREALLOC_ENTRIES
+        });
 
         // read tile_id
         let mut last_id = 0u64;
         for _ in 0..num_entries {
             let tmp = read_varint([u64], [reader])?;
 
-            last_id += tmp;
+            let Some(next_id) = last_id.checked_add(tmp) else {
+                return Err(std::io::Error::new(
+                    std::io::ErrorKind::InvalidData,
+                    "Tile id of a directory entry overflows.",
+                ));
+            };
+            last_id = next_id;
             entries.push(Entry {
                 tile_id: last_id,
                 length: 0,
@@ -153,8 +168,22 @@ impl Directory {
             let val = read_varint([u64], [reader])?;
 
             entries[i].offset = if i > 0 && val == 0 {
-                entries[i - 1].offset + u64::from(entries[i - 1].length)
+                let Some(offset) =
+                    entries[i - 1].offset.checked_add(u64::from(entries[i - 1].length))
+                else {
+                    return Err(std::io::Error::new(
+                        std::io::ErrorKind::InvalidData,
+                        "Offset of a directory entry overflows.",
+                    ));
+                };
+                offset
             } else {
+                if val == 0 {
+                    return Err(std::io::Error::new(
+                        std::io::ErrorKind::InvalidData,
+                        "Offset of the first directory entry must not be encoded as 0.",
+                    ));
+                }
                 val - 1
             };
         }
